@@ -111,6 +111,9 @@ def main(argv):
         import glob
         for old in glob.glob(os.path.join(VERIF, "replays", "%s-*.json" % prop)):
             os.remove(old)
+        if "mc.ref.tables" in sys.modules:
+            # the reference tables are chosen once, here (in a forked child), so that every worker inherits the choice
+            sys.modules["mc.ref.tables"].reference()
         mod.run(ctx)
         wall = ctx.t()
         n_new, n_known = resolve(prop, a.tier, ctx.acc, meta)
